@@ -47,7 +47,7 @@ ADDED = {
     'C15': 'every history also ended through one iterator adaptor (skip(1), nth(1), count(), last()); two configurations on a padded layout',
     'C16': 'every arm of the four macros; every 50th case one ring of 33..200 vertices, every 97th 33..70 rings; first / last vertex '
            'differing in a no-data measure',
-    'C17': 'see C07 (same sweep, allocation windows)',
+    'C17': 'see C07 (same sweep, allocation windows); files of 2500 tiny records; the complete one-liners by path',
     'C18': 'every shape also as SECOND record of a file; doubled vertices; 63..300 parts; vertex-less parts; NaN X / Y',
     'C19': 'the header image of the sweep varies with the code (version word, length, box); record-level codes requested as every type '
            'they resemble (byte shifts, byte swap, negation, one extra bit); read_nth_shape(_as) through an index; the codes the writer stores',
@@ -57,9 +57,35 @@ ADDED = {
 }
 
 
+# second white-box round
+ADDED2 = {
+    'C01': 'the untyped read_nth_shape / iter_shapes / read / read_shapes routes; single-ring constructors; more than 4096 parts; special measures on long parts',
+    'C02': 'the complete Writer by path (over longer files too); the bulk call as the only call and handed nothing; part starts beyond vertex 2^16',
+    'C03': 'NaN in X / Y; record numbers i32::MAX / MIN; more than 1024 parts; a file without records followed by a stale record; the complete reader on every file',
+    'C04': 'iteration after a random access at the last index; two finalizes in a row; 65537 records; read_nth_shape(usize::MAX)',
+    'C05': 'shapes of 17..40 parts; a finalize before the first write; the boxes of the geo-types constructors',
+    'C06': 'identity of the conversions on shapes decoded from foreign files; shapefile::read_as(path) and Reader::from_path typed routes',
+    'C07': 'far-away indices for Reader::seek, read_nth_shape and nth on a used iterator; small negative content lengths with every type code',
+    'C08': 'seek(2) / seek(5); per-pair calls followed by the bulk call; the empty history by path; pairs accepted before a refused row must survive',
+    'C09': 'a refused write before a finalize; write_shapes of nothing; no I/O at an unwinding drop; 255 / 256 / 257 / 512 writes between finalizes; a writer of user-defined NullShape shapes',
+    'C10': 'refusals on a file beyond 64 KiB; a refused shape with special values; the path-created writer; a pre-typed ShapeWriter handed to Writer::new',
+    'C11': 'byte-level cuts for every type in the quick tier; large-part workloads for PolylineM, PolygonZ, MultipointZ',
+    'C12': 'the complete writer\'s bulk route; the empty history and bulk calls handed nothing; a part of 40 vertices; interrupted seeks (persistent and one-shot)',
+    'C13': 'the complete reader under fault enumeration; typed and by-path one-liners on cut files; a seek behind the end; ten error kinds; a cut index that opens must report the cut',
+    'C14': 'gaps of 2..4 KiB; null-shape records behind the index; 8193 entries in the quick tier',
+    'C15': 'every seek position on a 40-record file',
+    'C16': 'rings up to 700 vertices; the geo-types constructors',
+    'C18': 'the bulk route for the two-record file; 511..4097 parts',
+    'C19': 'bodies of 44 / 100 bytes; indexed iteration and read(); the complete reader; the code in a second record; the index header by path',
+    'C20': 'typed conversions compared with the generic one; strips / fans of 3..6 vertices (typed refusal too); a vertex-less hole',
+}
+
+
 def _mk(prop, tier, seed, level, rule, assumptions=None, exhaustive=False):
     if prop in ADDED:
         rule = rule + '. ALSO (DESIGN 8.8): ' + ADDED[prop]
+    if prop in ADDED2:
+        rule = rule + '; second round: ' + ADDED2[prop]
     return Verdict(prop, tier, seed, level, rule, ASSUME_COMMON + (assumptions or []), exhaustive)
 
 
